@@ -21,7 +21,7 @@ def cases(tier, seed):
     N, G = (4, 2) if tier == "quick" else (5, 2)
     for f in FUNCS:
         for mk in ("none", "bool_sym"):
-            for dt in (("float64", "int64") if f in ("sum", "max", "first") else ("float64",)):
+            for dt in (("float64", "int64", "timedelta64[ns]") if f in ("sum", "max", "first") else (("float64", "timedelta64[ns]") if f == "mean" else ("float64",))):
                 c = {"func": f, "N": N, "G": G, "mask": {"kind": mk}, "dtype": dt, "rep": "contiguous", "witness": f == "mean" and mk == "none"}
                 c["name"] = f"GroupBy.{f}(transform=True)/{dt}/contiguous keys/N={N},G={G}/mask={mk}"
                 out.append(c)
@@ -122,6 +122,14 @@ def run_case(E, case):
             for g in range(G):
                 if f in ("count", "size"):
                     per_group.append(cnt.cells[g])
+                elif f == "mean" and dt.kind in "mM":
+                    # temporal mean = floor(sum / count) in the value's unit, NaT when nothing was counted
+                    from ..values import int_floordiv
+                    sm, cn = res.cells[g], cnt.cells[g]
+                    q = z3.IntVal(0)
+                    for k_ in range(16, 0, -1):
+                        q = z3.If(cn == k_, int_floordiv(sm, k_), q) if is_sym(cn) else (int_floordiv(sm, k_) if cn == k_ else q)
+                    per_group.append(ite(cn == 0, MIN_INT, q))
                 elif f == "mean":
                     per_group.append(fdiv(res.cells[g], cnt.cells[g]))
                 else:
@@ -196,6 +204,8 @@ def replay(case, conc, cand=None):
     for g in range(G):
         if f in ("count", "size"):
             per_group.append(cnt[g])
+        elif f == "mean" and dt.kind in "mM":
+            per_group.append(int(res[g]) // int(cnt[g]) if cnt[g] else MIN_INT)
         elif f == "mean":
             per_group.append(res[g] / cnt[g] if cnt[g] else float("nan"))
         else:
